@@ -1,9 +1,10 @@
 CONFIG = {
     "id": "C17",
     "coq_targets": ["Model/DispatchInterp.v", "Gen/DispatchTable.v", "Proofs/DispatchTableProofs.v", "Gen/FormulasInfo.v", "Gen/FormulasAttr.v", "Gen/FormulasHeal.v", "Proofs/FormulasInfoProofs.v", "Proofs/FormulasAttrCoreProofs.v", "Proofs/FormulasHealProofs.v",
+                    "Model/HandlersInterp.v", "Gen/HandlersTable.v", "Proofs/HandlersTableProofs.v",
                     "Props/C17.v", "Model/HealCheck.v", "Model/HealTerms.v", "Model/SimCheck.v", "Model/DispatchCheck.v", "Proofs/DispatchProofs.v", "Model/EventsCheck.v"],
     "prop_files": ["Props/C17.v"],
-    "gen": ["FormulasInfo", "FormulasAttr", "FormulasHeal", "DispatchTable"],
+    "gen": ["FormulasInfo", "FormulasAttr", "FormulasHeal", "DispatchTable", "HandlersTable"],
     "components": [{
         "name": "heal",
         # HealTerms last: it gives the case files the constructors at the binary64 instance
@@ -48,6 +49,12 @@ CONFIG = {
             "at the overheal boundary (missing HP, one ulp above / below) read from the real attribute service; all randomness "
             "from one splitmix64 state; a case is non-trivial when distinct as an input term || Component dispatch_heal (the modifier manager's listener dispatch, pkg/engine/modifier/listener.go + the two listener walks of tick.go, through the REAL modifier.NewManager over a fake engine with a real event.System): per case 2-4 modifier configs registered with the real modifier.Register (Stacking Multiple; half of them with EVERY field of modifier.Listeners set, the others with a random half of the fields - a nil field must be skipped; a third with CanModifySnapshot), every set field recording (field name, instance tag, Instance.Owner(), target argument); the six callbacks of the mutable events (OnBeforeDealHeal / OnBeforeBeingHeal on *HealStart, the four OnBefore*Hit* on *info.Hit) also rewrite one number of the event as v -> (2v + tag + 1) mod 1000003, read back after Emit; 2-4 valid units out of ids 1..4 in random order, 0-3 instances each attached in interleaved order incl. several of one config, an attach to an invalid unit now and then; in half of the cases the configs carry SCRIPTS for callbacks that are in play in the case's events (RemoveSelf of itself / of another tag, AddModifier on some unit or on the owner) that run inside the dispatch; in half of those config 0 has every callback and, for most callbacks in play, the script [RemoveSelf; AddModifier(owner, config 0)] or [RemoveSelf], and most instances are of config 0, so that nearly every walk runs over a list that changes under it; 3-20 events emitted through the real event.System: heals of 1-3 targets as HealStart [HPChange] HealEnd per target with a common snapshot flag (1 in 4), lone HealStart / HealEnd / HPChange, LimboWaitHeal with 0, 1 or several instances answering true; unit ids of every role drawn independently (self-heal / attacker among the targets / attacker = defender / repeated targets / killer = victim arise often) and one time in 14 an id the engine does not know.  Compared per event: the exact call sequence, the LimboWaitHeal verdict returned by Emit, the number read back, and the (tag, config) lists of every unit afterwards.",
     "trusted": [
+        "event handlers (HealStart goes through handler/mutable.go) and logger fan-out, TRANSLATED from the Go source on every "
+        "run (go2coq HandlersTable -> Gen/HandlersTable.v; interpreter Model/HandlersInterp.v; Proofs/HandlersTableProofs.v; "
+        "theorem C17_handlers_are_the_source; described under C18): Subscribe / Emit of the four handler types and "
+        "logging.Log / InitLoggers as a first-order table whose interpretation is proved EQUAL to Events.subscribe / emit / "
+        "log_items / init_loggers for all inputs; any unrecognised statement, field, function or variable makes go2coq exit 1. "
+        "Hand-written under it: listeners as data, the trace items, Go slice semantics and sort.Sort as stable insertion",
         'listener dispatch, TRANSLATED from the Go source on every run (go2coq DispatchTable -> Gen/DispatchTable.v; interpreter Model/DispatchInterp.v; Proofs/DispatchTableProofs.v; theorem C17_dispatch_is_the_source): the Subscribe wiring of (*Manager).subscribe (which event field of event.System is wired to which method, with which priority; the function is the only one of the package calling Subscribe and is called exactly once) and, for each of the 18 subscribed methods of listener.go, the locals `qualified := e...IsQualified()` / `snapshot := e...UseSnapshot` (field paths), the walks `for _, mod := range mgr.itr(<role expression>)` resp. `for _, t := range e.Targets { for _, mod := range mgr.itr(t) ... }` in source order, per walk whether `if snapshot && !mod.modifySnapshot { continue }` guards the body, the callbacks `f := mod.listeners.K; if f != nil [&& qualified] { f(mod [, e | e.Target]) }` in source order, the early `if result { return true }` and the closing `return false` of limboWaitHeal, and the field list of modifier.Listeners.  The interpretation of the generated table is proved EQUAL to Model/Dispatch.run_event (calls, verdict, read-back number, world afterwards) for every world and every event; so a changed role expression, callback field, order of walks or of callbacks, a dropped or added gate, a changed wiring or priority breaks a kernel-checked obligation for all inputs; any statement outside the recognised shapes (head of harness/cmd/go2coq/dispatch.go) makes go2coq exit 1 (broken translator obligation).  (*Manager).itr is checked to be verbatim make + copy + return',
         'listener dispatch, still HAND-WRITTEN / trusted under the translator tie: callbacks are data (has = the Listeners field is non-nil, script_of / do_actions = what the harness callback does, c_snap = Instance.modifySnapshot, the recorded call, the number the six mutating harness callbacks rewrite), `attached` = mgr.targets[unit] with mgr.itr a copy of it taken when the walk starts, the table in Model/DispatchInterp.v saying which constructor argument of the model event is which Go field path (record projections: Attacker, Defender, Hit.AttackType.IsQualified(), Healer.ID(), Info.Target, ...), the event system that delivers an event to the subscribed method (C18) and that a priority-100 listener runs after the default-priority ones; NOT translated: emitAdd / emitRemove / emitDispel / emitExtendDuration / emitExtendCount / emitPropertyChange (the model has no event for them; it records OnAdd / OnRemove only as the consequence of a script attach / detach) and the OnPhase1 / OnPhase2 walks of tick.go (ETick) - those stay tied by correspondence only; the translator itself (go/packages, go/types front end and the shape matcher of dispatch.go)',
         "TRANSLATED from the Go source on every run and proved equal to the model for every NumOps instance and "
@@ -90,7 +97,7 @@ CONFIG = {
         'dispatch theorems: the full role table (clauses a-g) is stated for worlds whose callbacks only record; for callbacks that detach / attach modifiers during the dispatch the theorem is per walk (each walk visits the eligible instances attached when it started), plus the full table for single-walk events and LimboWaitHeal; callbacks do not emit engine events from inside a dispatch',
     ],
     "manifest": {
-        "level_text": "Translator tie (way 1) of the listener dispatch: pkg/engine/modifier/listener.go (Subscribe wiring with priorities, walks, role expressions, snapshot / qualified / nil gates, callback order, the early return of limboWaitHeal) is regenerated as a first-order table on every run (go2coq DispatchTable) and its interpretation is proved EQUAL to the dispatch model for all worlds and events; Translator tie (way 1): the heal amount of heal.go (per-key switch, boosts, missing-HP term, overflow split), the stats it reads and the HP update are regenerated from the Go source on every run (go2coq FormulasHeal / FormulasInfo / FormulasAttr) and proved EQUAL to the model definitions for all inputs; "
+        "level_text": "Translator tie (way 1) of the event handlers (pkg/engine/event/handler Subscribe / Emit, logging.Log / InitLoggers; go2coq HandlersTable, interpretation proved EQUAL to Model/Events.v for all inputs); Translator tie (way 1) of the listener dispatch: pkg/engine/modifier/listener.go (Subscribe wiring with priorities, walks, role expressions, snapshot / qualified / nil gates, callback order, the early return of limboWaitHeal) is regenerated as a first-order table on every run (go2coq DispatchTable) and its interpretation is proved EQUAL to the dispatch model for all worlds and events; Translator tie (way 1): the heal amount of heal.go (per-key switch, boosts, missing-HP term, overflow split), the stats it reads and the HP update are regenerated from the Go source on every run (go2coq FormulasHeal / FormulasInfo / FormulasAttr) and proved EQUAL to the model definitions for all inputs; "
                       "Kernel-checked theorems over an executable Gallina model of Manager.Heal and the attribute service's "
                       "HP update (structure and dead-source clause at every arithmetic instance, no-overheal at the binary64 "
                       "level for all histories, amount/overflow algebra at the real instance), tied to the Go code by exact "
